@@ -64,6 +64,7 @@ const (
 	opHSetChild // H.SetChild(addr)
 	opHRemove   // H.Remove(addr)
 	opReattach  // h := Child(a); Remove(a); SetChild(addr, h)   (C15: re-attached children)
+	opMergeOwn  // Merge({to: Child(from)}): copy a subtree of the config to another key of the same config
 )
 
 type pathOp struct {
@@ -96,6 +97,8 @@ func (o pathOp) String() string {
 		return fmt.Sprintf("H.Remove%v", o.A)
 	case opReattach:
 		return fmt.Sprintf("h:=Child%v;Remove%v;SetChild%v=h", o.From, o.From, o.A)
+	case opMergeOwn:
+		return fmt.Sprintf("Merge({%s:Child%v})", o.A.Name, o.From)
 	}
 	return "?"
 }
@@ -149,6 +152,9 @@ func buildPathUniverse(prop string, rich bool) *pathUniverse {
 	u.ops = append(u.ops, pathOp{Kind: opHSetChild, A: addr{"y", -1, false}, Label: "HC"})
 	for _, a := range []addr{{"x", -1, false}, {"", 0, false}} {
 		u.ops = append(u.ops, pathOp{Kind: opHRemove, A: a})
+	}
+	for _, p := range [][2]addr{{{"a", -1, true}, {"b", -1, true}}, {{"a", 0, true}, {"b", -1, true}}, {{"b", -1, true}, {"a", -1, true}}} {
+		u.ops = append(u.ops, pathOp{Kind: opMergeOwn, From: p[0], A: p[1]})
 	}
 	if prop == "C15" {
 		for _, p := range [][2]addr{{{"a", -1, true}, {"b", -1, true}}, {{"a", 0, true}, {"b", -1, true}}, {{"a.a", -1, true}, {"b", 0, true}}} {
@@ -283,12 +289,26 @@ func (st *pathState) apply(o pathOp) *core.Violation {
 		}
 		tree.Set(st.mroot, o.A.segs(), mn)
 		st.h, st.mh = nil, nil
+	case opMergeOwn:
+		mn, r := tree.Get(st.mroot, o.From.segs())
+		if r != tree.OK || mn.K != tree.Cont {
+			return nil
+		}
+		c, err := st.root.Child(o.From.Name, o.From.Idx, o.From.opts()...)
+		if err != nil {
+			return bad("child-missing", err.Error())
+		}
+		if err := st.root.Merge(map[string]interface{}{o.A.Name: c}, ucfg.PathSep(".")); err != nil {
+			return bad("error", err.Error())
+		}
+		st.mroot = tree.Merge(tree.Default, st.mroot, tree.Dict(o.A.Name, mn.Clone()))
+		st.h, st.mh = nil, nil
 	}
 	return nil
 }
 
 func opKindName(k pathOpKind) string {
-	return [...]string{"SetString", "SetInt", "SetChild", "Remove", "Merge", "Child", "H.SetString", "H.SetChild", "H.Remove", "Reattach"}[k]
+	return [...]string{"SetString", "SetInt", "SetChild", "Remove", "Merge", "Child", "H.SetString", "H.SetChild", "H.Remove", "Reattach", "MergeOwnChild"}[k]
 }
 
 // observeC12 compares every observation with the model in the current state.
